@@ -31,8 +31,23 @@ func Register(p *Pkg) { pkgs[p.Name] = p }
 // Get returns a registered package or nil.
 func Get(name string) *Pkg { return pkgs[name] }
 
-// Names lists the registered packages in sorted order.
+// Names lists the registered general-purpose packages in sorted order. Packages flagged
+// "private" were generated for one stream (v-lref: leafref predicates; v-colon: enumeration
+// names with ':') and are not handed to the others.
 func Names() []string {
+	var out []string
+	for k, p := range pkgs {
+		if p.Flags["private"] {
+			continue
+		}
+		out = append(out, k)
+	}
+	sort.Strings(out)
+	return out
+}
+
+// AllNames lists every registered package, private ones included.
+func AllNames() []string {
 	var out []string
 	for k := range pkgs {
 		out = append(out, k)
